@@ -99,3 +99,32 @@ Proof.
   intros cc a b arg who w. unfold world_step. cbn [fst snd c_arg c_who c_op call_decl sch_step].
   rewrite put_get. reflexivity.
 Qed.
+
+(* ---------- schema evolution through the argument *)
+(* one addColumn / delColumn: class and addressed database make exactly the step of the single-database
+   evolution machine (so C14_evolution_inv speaks about them); every other database is what it was *)
+Lemma evo_world_step_spec : forall cc arg op w,
+  let c := route cc arg in
+  let r := evo_step {| e_decl := ew_decl w; e_db := get c (ew_dbs w) |} op in
+  ew_decl (fst (evo_world_step cc arg op w)) = e_decl (fst r)
+  /\ get c (ew_dbs (fst (evo_world_step cc arg op w))) = e_db (fst r)
+  /\ snd (evo_world_step cc arg op w) = snd r
+  /\ forall c', c' <> c -> get c' (ew_dbs (fst (evo_world_step cc arg op w))) = get c' (ew_dbs w).
+Proof.
+  intros cc arg op w c r. unfold evo_world_step. cbn [fst snd ew_decl ew_dbs]. fold c. fold r.
+  repeat split.
+  - apply get_put_same.
+  - intros c' H. apply get_put_other. exact H.
+Qed.
+
+(* ANY history of evolution steps: a database none of them addresses is left exactly as it was *)
+Lemma evo_world_run_frame : forall cc ops w c,
+  (forall p, In p ops -> route cc (fst p) <> c) ->
+  get c (ew_dbs (evo_world_run cc ops w)) = get c (ew_dbs w).
+Proof.
+  intros cc ops. induction ops as [|[arg op] r IH]; intros w c H; [reflexivity|].
+  cbn [evo_world_run]. rewrite IH.
+  - unfold evo_world_step. cbn [fst snd ew_dbs]. apply get_put_other.
+    intro E. apply (H (arg, op)); [left; reflexivity|]. cbn [fst]. symmetry. exact E.
+  - intros p Hin. apply H. right. exact Hin.
+Qed.
